@@ -17,6 +17,7 @@ import NemoVerif.Lemmas.GroupCoreVMCompose
 import NemoVerif.Lemmas.GroupCoreVMTemplate
 import NemoVerif.Lemmas.GroupCoreVMEvent
 import NemoVerif.Lemmas.GroupCoreVMPick
+import NemoVerif.Lemmas.GroupCoreVMLoop
 namespace NemoVerif.C07
 open NemoVerif NemoVerif.Dnf NemoVerif.GroupExpand NemoVerif.GroupVM
 
@@ -265,7 +266,7 @@ theorem groupvm_is_corevm_partial_or (fuel : Nat) (s : CoreVM.VM) (f : CoreIndex
     (hlen : us.length = brs.length) (hnm : CoreVM.noMulti brs = true) (hnd : (others.map (·.1) ++ us.map (·.1)).Nodup)
     (hv : CoreVM.hview i = others ++ CoreVM.renderB (pe + 1) us brs) :
     ∃ s' i', CoreVM.runMembers (fuel + 2) f (CoreVM.matchingB e us brs) s = .ok () s' ∧ CoreVM.FlowAt s' f i' x cfg ∧ s'.r = s.r ∧
-      CoreVM.hview i' = others ++ CoreVM.renderB (pe + 1) us (p1Brs e 0 brs).1 :=
+      CoreVM.hview i' = others ++ CoreVM.renderB (pe + 1) us (p1Brs e 0 brs).1 ∧ i'.status = i.status :=
   CoreVM.or_group_phase1 fuel s f i x cfg l mu pe e others us brs F hown C S hlen hnm hnd hv
 
 /-- **groupvm_is_corevm_partial (fork segment).**  The root head ACTIVE on `CatchPatternFailure fl; ForkHead u [l_1 … l_n]`, every
@@ -402,6 +403,23 @@ theorem groupvm_is_corevm_partial_merge_lose (fuel : Nat) (s : CoreVM.VM) (f : C
       s'.r.prog = s.r.prog ∧ s'.r.nextUid = s.r.nextUid :=
   CoreVM.slideStep_merge_lose fuel s f h i x cfg hd rd u r cs H hel hm hfu hroot hcs hleaf hex MH hMH c rest sc0 h' hch hclt hcget
     hne hlen1 hsc hnd hmem hrh hrpos hrst hrcs hucs hns
+
+/-- **groupvm_is_corevm_partial (one event on a pure or-group of single atoms, EVERY tie-break).**  Phase 1 (`GroupVM.p1Brs`) and then the
+    merging loop over all branch heads that became MERGING (several when an atom occurs more than once), advanced in order with CoreVM's
+    `slide`: a head that `random.choice` does not pick becomes INACTIVE, the first picked one — at the latest the last remaining one —
+    merges.  For EVERY list of recorded outcomes that is present and in range (`Adequate`) the forking head continues behind the group
+    and no branch head is left: `GroupVM.stepEvent` / `merging_always_completes` on or-groups, by the interpreter model's own `slide`. -/
+theorem groupvm_is_corevm_partial_or_event_all (fuel : Nat) (s : CoreVM.VM) (f : CoreIndex.FUid) (i : CoreIndex.Inst) (x : CoreVM.InstX)
+    (cfg : CoreVM.FlowCfg) (l mu : String) (pe fp e : Nat)
+    (r : CoreIndex.HUid) (us : List (CoreIndex.HUid × Nat)) (brs : List Br) (sc0 : List CoreVM.Score) (n : Nat)
+    (I : CoreVM.OrMergeInv s f i x cfg l mu pe fp r us brs sc0) (hown : x.ctxOwner = none) (S : CoreVM.MembersShape cfg l pe us)
+    (hnm : CoreVM.noMulti brs = true) (hl1 : (p1Brs e 0 brs).1.length = brs.length)
+    (hMH : (CoreVM.mergingUids us (p1Brs e 0 brs).1).length = n + 1) (hadq : CoreVM.Adequate (n + 1) s.r.choices) :
+    ∃ s1 i1 s2 i2 x2, CoreVM.runMembers (fuel + 2) f (CoreVM.matchingB e us brs) s = .ok () s1 ∧ CoreVM.FlowAt s1 f i1 x cfg ∧
+      CoreVM.hview i1 = (r, fp, CoreIndex.HeadStatus.inactive) :: CoreVM.renderB (pe + 1) us (p1Brs e 0 brs).1 ∧
+      CoreVM.slideUntil (fuel + 4) f (CoreVM.mergingUids us (p1Brs e 0 brs).1) s1 = .ok [(f, r)] s2 ∧ CoreVM.FlowAt s2 f i2 x2 cfg ∧
+      x2.ctxOwner = x.ctxOwner ∧ CoreVM.hview i2 = [(r, pe + 1, CoreIndex.HeadStatus.active)] :=
+  CoreVM.or_group_event_all fuel s f i x cfg l mu pe fp e r us brs sc0 n I hown S hnm hl1 hMH hadq
 
 /-! ## the expanded element list -/
 
@@ -695,7 +713,8 @@ example : CoreVM.ContainsAt exCfgGen (fun a => exSpec (if a = 0 then "E0" else "
 -- non-vacuity of `groupvm_is_corevm_partial_or`: both branch heads of `match E0() or E1()`, event E1
 example : ∃ s' i', CoreVM.runMembers 3 "m" (CoreVM.matchingB 1 [("h1", 4), ("h2", 7)] [.single 0, .single 1]) (exVM exCfgOr) = .ok () s' ∧
     CoreVM.FlowAt s' "m" i' exX exCfgOr ∧ s'.r = (exVM exCfgOr).r ∧
-    CoreVM.hview i' = [("h0", 2, .inactive)] ++ CoreVM.renderB 15 [("h1", 4), ("h2", 7)] (p1Brs 1 0 [.single 0, .single 1]).1 :=
+    CoreVM.hview i' = [("h0", 2, .inactive)] ++ CoreVM.renderB 15 [("h1", 4), ("h2", 7)] (p1Brs 1 0 [.single 0, .single 1]).1 ∧
+    i'.status = exInst.status :=
   groupvm_is_corevm_partial_or 1 (exVM exCfgOr) "m" exInst exX exCfgOr "e" "u" 14 1 [("h0", 2, .inactive)] [("h1", 4), ("h2", 7)]
     [.single 0, .single 1]
     { hi := rfl, hx := rfl, hc := rfl } rfl
@@ -837,5 +856,22 @@ example :=
     ["h1", "h2"] (by decide) 1 [] [] "h2" rfl (by decide) rfl (by decide) (by decide)
     (by intro k hk; simp at hk; rcases hk with rfl | rfl <;> rfl)
     (by decide) (by decide) (by decide) (by decide) rfl (by decide) (by decide) (by decide)
+
+/-- `match E0() or E0()` before the event, with a recorded tie-break -/
+def exVMOr2 (choices : List Nat) : CoreVM.VM :=
+  { ixs := exIxs, r := { prog := { flows := [exCfgOr] }, fx := [("m", exXFork)], hx := [(("m", "h0"), { childHeadUids := ["h1", "h2"] })],
+                          choices := choices } }
+
+-- non-vacuity of `groupvm_is_corevm_partial_or_event_all`: both branches wait for atom 0, `random.choice` returns 1 (the first head loses)
+example :=
+  groupvm_is_corevm_partial_or_event_all 1 (exVMOr2 [1]) "m" exInst exXFork exCfgOr "e" "u" 14 2 0 "h0" [("h1", 4), ("h2", 7)]
+    [.single 0, .single 0] [] 1
+    { F := { hi := rfl, hx := rfl, hc := rfl }, C := { hl := rfl, hsize := by decide, hm := rfl }, hv := rfl, hlen := rfl,
+      hndu := by decide, hfu := rfl, hhx := rfl,
+      hleaf := by intro c hc; simp at hc; rcases hc with rfl | rfl <;> rfl,
+      hsc := by intro c hc; simp at hc; rcases hc with rfl | rfl <;> rfl,
+      hmu := by decide, hfp := by decide, hns := by decide }
+    rfl (by intro u hu; simp at hu; rcases hu with rfl | rfl <;> exact ⟨rfl, by decide⟩)
+    rfl (by decide) (by decide) ⟨by decide, Or.inr trivial⟩
 
 end NemoVerif.C07
